@@ -324,6 +324,27 @@ impl Interp {
                 }
                 true
             }
+            ["icover"] => match std::mem::replace(&mut self.b, B::None) {
+                // more than 65 535 records of a kind: the property does not say whether the
+                // calculation is refused; it is judged by predicate (refused, or every value right)
+                B::Conn(b) => {
+                    match b.calculate_information_content() {
+                        Err(_) => out.push("oracle ok".to_string()),
+                        Ok(b) => {
+                            let o = b.build_minimal();
+                            match crate::ext2::oracle_ic(&o) {
+                                Ok(()) => out.push("oracle ok".to_string()),
+                                Err(e) => out.push(format!("oracle FAIL ic beyond the u16 limit: {e}")),
+                            }
+                        }
+                    }
+                    true
+                }
+                other => {
+                    self.b = other;
+                    false
+                }
+            },
             ["ic"] => match std::mem::replace(&mut self.b, B::None) {
                 B::Conn(b) => {
                     match b.calculate_information_content() {
